@@ -138,10 +138,11 @@ type (
 
 // Proc describes how worker processes of a workload are run.
 type Proc struct {
-	RlimitAS   uint64 // bytes; 0 = none
-	MaxStack   int    // bytes; 0 = runtime default
-	Workers    int    // 0 = default (16)
-	StallSec   int    // parent watchdog: seconds without journal progress (0 = 600)
+	RlimitAS   uint64  // bytes; 0 = none
+	MaxStack   int     // bytes; 0 = runtime default
+	Workers    int     // 0 = default (16)
+	StallSec   int     // parent watchdog: seconds without journal progress (0 = 600)
+	StallCPU   float64 // when the watchdog fires and the worker used at least this many CPU-seconds inside the one case: violation (did not return), not inconclusive
 	GOMAXPROCS int
 }
 
